@@ -19,10 +19,10 @@ tvars == <<vars, tid, l, phase>>
 
 Ev == Traces[tid].events[l]
 
-CaseOf(ev) == [sigs |-> SigsFromEntries(ev.entries), auth |-> SeqToSet(ev.auth), thr |-> ev.thr, gpg |-> ev.gpg]
+CaseOf(ev) == [sigs |-> SigsFromEntries(ev.entries), auth |-> SeqToSet(ev.auth), thr |-> ev.thr, gpg |-> ev.gpg, authalt |-> FALSE]
 
 TInit == /\ tid \in DOMAIN Traces /\ l = 1 /\ phase = "idle"
-         /\ case = [sigs |-> [n \in Names |-> Absent], auth |-> {}, thr |-> 1, gpg |-> FALSE]
+         /\ case = [sigs |-> [n \in Names |-> Absent], auth |-> {}, thr |-> 1, gpg |-> FALSE, authalt |-> FALSE]
          /\ pc = "idle" /\ todo = {} /\ good = {} /\ outcome = "none"
 
 Begin == /\ phase = "idle" /\ l <= Len(Traces[tid].events)
